@@ -126,10 +126,32 @@ def run(ctx):
                             changed = True
                 usize_params = {l for l in range(1, b.argc + 1) if (b.local_ty(l) or '') == 'usize'}
 
+                def wide_sources(o0):
+                    """locals a value derives from, also through Ok(..)/Some(..) wrapping, `?` and unwrap (the position returned by a helper)"""
+                    out_, work = set(), [o0]
+                    while work:
+                        o_ = work.pop()
+                        if not is_local_op(o_):
+                            continue
+                        for l_ in source_locals(b, o_):
+                            if l_ in out_:
+                                continue
+                            out_.add(l_)
+                            for q_, d_ in defs_of(b, l_):
+                                if d_['k'] == 'assign' and d_['rv']['k'] == 'agg' and len(d_['rv']['ops']) == 1 and d_['rv'].get('var') in ('Ok', 'Some', 'Continue'):
+                                    work.append(d_['rv']['ops'][0])
+                                elif d_['k'] == 'assign' and d_['rv']['k'] == 'use' and is_local_op(d_['rv']['o']) and d_['rv']['o']['p']:
+                                    pr = d_['rv']['o']['p']
+                                    if all(x in ('as Continue', '.ControlFlow.0', 'as Some', '.Option.0', 'as Ok', '.Result.0', '*') for x in pr):
+                                        work.append({'l': d_['rv']['o']['l'], 'p': []})
+                                elif d_['k'] == 'call' and call_matches(d_, r'Try>::branch$|Option::<T>::(unwrap|expect)$|Result::<T, E>::(unwrap|expect)$') and d_['args']:
+                                    work.append(d_['args'][0])
+                    return out_
+
                 def role(o):
                     if not is_local_op(o):
                         return None
-                    sl = source_locals(b, o)
+                    sl = wide_sources(o)
                     cs_ = {comp[x] for x in sl if x in comp and comp[x] is not None}
                     if cs_ == {0}:
                         return 'start'
